@@ -22,6 +22,7 @@ def run(chk, F):
     chk.guard("walk-coverage", "name readings", lambda: L.readings_agree(chk, F))
     chk.guard("walk-coverage", "readings per context", lambda: L.context_readings(chk, F))
     chk.guard("walk-coverage", "local names", lambda: L.local_names(chk, F))
+    chk.guard("long-prefix-yields-to-a-unit", "load_defs", lambda: L.units_precedence(chk, F))
     chk.guard("single-load", "config::load", lambda: L.single_load_cli(chk, F))
     import c07
     chk.guard("fallback-order", "Resolver::lookup", lambda: c07.family(chk, F, "Resolver::lookup", "loader::load::Resolver::lookup_exact", "loader::load::Resolver::lookup_with_prefix", "loader::load::Resolver::lookup", {}))
